@@ -2128,12 +2128,12 @@ func (pb *PositionedBlock) writeRLEs(indices map[uint32]struct{}, op *OutputOp, 
 	// traverse the sub-blocks in block coordinates.
 	for vz := minPt[2]; vz <= maxPt[2]; vz++ {
 		z := vz - offset[2]
-		blockz := vz % SubBlockSize
+		blockz := z % SubBlockSize // position within the sub-block: block-local, so never negative
 		dsz := (z / SubBlockSize) * gy * gx
 
 		for vy := minPt[1]; vy <= maxPt[1]; vy++ {
 			y := vy - offset[1]
-			blocky := vy % SubBlockSize
+			blocky := y % SubBlockSize
 			sbNumStart := dsz + (y/SubBlockSize)*gx
 			yz := getImmutableYZ(vy, vz)
 			rle, inRun := rleBuf.rles[yz]
@@ -2152,7 +2152,7 @@ func (pb *PositionedBlock) writeRLEs(indices map[uint32]struct{}, op *OutputOp, 
 					sbNum = sbNumCur
 					numSBLabels = pb.NumSBLabels[sbNum]
 					bits = bitsFor(numSBLabels)
-					bitpos = sbValuePos[sbNum] + uint32(blockz*SubBlockSize*SubBlockSize+blocky*SubBlockSize+vx%SubBlockSize)*bits
+					bitpos = sbValuePos[sbNum] + uint32(blockz*SubBlockSize*SubBlockSize+blocky*SubBlockSize+x%SubBlockSize)*bits
 					indexPos := sbIndexPos[sbNum]
 					for i := uint16(0); i < numSBLabels; i++ {
 						curIndices[i] = pb.SBIndices[indexPos]
